@@ -497,6 +497,10 @@ var cloTable = map[*Frame]map[string]*Closure{}
 
 func (fr *Frame) goStmt(in *ssa.Go) {
 	fr.vc.note("go statement in " + fr.top.fn.String() + ": spawned goroutine not part of this sequential VC")
-	fr.siteCall(in.Common(), in.Pos(), nil, true, nil)
-	fr.siteCall(in.Common(), in.Pos(), nil, false, nil)
+	var args []Val
+	for _, a := range in.Common().Args {
+		args = append(args, fr.get(a))
+	}
+	fr.siteCall(in.Common(), in.Pos(), args, true, nil)
+	fr.siteCall(in.Common(), in.Pos(), args, false, nil)
 }
